@@ -2,7 +2,7 @@ SPECIFICATION Spec
 CONSTANTS
   G = {1, 2}
   Rows = {"r1", "r2"}
-  Acts = {}
+  Acts = {"a1"}
   MaxBranches = 2
   MaxDup = 1
   MaxForeign = 0
@@ -11,14 +11,14 @@ CONSTANTS
   OblLockCover = TRUE
   OblDirtyRefused = TRUE
   OblIdempotent = TRUE
-  OblMarker = TRUE
+  OblMarker = FALSE
   OblFence = TRUE
   OblP1Atomic = TRUE
-  OblLockQuery = FALSE
-  AllowReads = TRUE
+  OblLockQuery = TRUE
+  AllowReads = FALSE
   OblHonest = TRUE
   AllowXA = FALSE
   OblXATruthful = TRUE
   OblXAPhaseOrder = TRUE
-INVARIANTS NoDirtyGlobalRead TypeOK ATAtomicRollback TCCAtomic NoDirtyGlobalWrite RollbackPossible
+INVARIANTS TypeOK ATAtomicRollback TCCAtomic NoDirtyGlobalWrite RollbackPossible
 CHECK_DEADLOCK FALSE
